@@ -601,6 +601,9 @@ func (kc *kernelCtx) hooks(b *Block, ts *TypeSpec, recv string, inline map[strin
 			ls.Invariant = append(ls.Invariant, c.Text)
 		}
 		ls.NoExit = lb.first("noexit") != nil
+		for _, c := range lb.all("exit") {
+			ls.Exit = append(ls.Exit, c.Text)
+		}
 		for _, c := range lb.all("iteration") {
 			w, r := splitWord(c.Text)
 			if w == "ensures" {
